@@ -1,4 +1,411 @@
-import PieModel.Build.Pie
+/-
+Property C08: "After a task executes, the dependencies Pie holds for it are exactly the requires,
+reads and writes it performed in that execution, each with the checker it passed and a stamp of
+what it saw, and nothing left over from earlier executions."
+
+* `C08_reset_clears`: the execute prologue empties the dependency list;
+* `C08_recorded_eq_performed`: after an execution that returned, `depsFrom node` is
+  `mergeAll [] ops`, `ops` the operations the body performed in order (`C08.tdOps`), where
+  `merge` keeps ONE dependency per target: a new target is appended; a repeated `require`
+  replaces the data in place (last wins); a repeated `read`/`write` is dropped (first wins) —
+  this is known finding K2, so the literal "exactly the performed operations" holds under
+  `C08.OneChecker` (`C08_one_checker`: first-occurrence projection);
+* `C08_no_leftover`, `C08_dropped_never_triggers`.
+
+The stack discipline `hframe` ("no task is reset or executed while it is the current frame of an
+enclosing execution", as a statement on the tracker stream: `KNoExec t …`) is not a hypothesis: it
+is derived for every well-formed session state in `Build/StackTD.lean` / `Build/StackBU.lean`
+(`C08_hframe_td`, `C08_hframe_bu`).  The law for the body interpreters is in
+`Build/DepLaw.lean`, `Build/DepLawBU.lean`; the frame lemma in `Build/FrameExec*.lean`.
+-/
+import PieModel.Build.DepLawBU
+import PieModel.Build.StackBU
+import PieModel.Build.Declared
+import PieModel.Build.TraceExec
+import PieModel.Props.C09
+import PieModel.Props.C19
+
 namespace PieModel
-theorem C08_placeholder : True := trivial
+open Sess SessL C08
+
+variable (sem : Sem) (body : Nat → Prog)
+
+/-- Every target is accessed in one way only during the execution (same kind, same checker, and
+hence — the task being deterministic — the same stamp). -/
+def C08.OneChecker (ops : List Dep) : Prop :=
+  ∀ d₁ ∈ ops, ∀ d₂ ∈ ops, d₁.key = d₂.key → d₁ = d₂
+
+/-- A sufficient, decidable form of the stack-discipline hypothesis. -/
+theorem C08.noExec_of_drop {tn : Nat} {s s' : Sess}
+    (h : Ev.executeStart tn ∉ s'.trace.drop s.trace.length) : KNoExec tn s s' := by
+  intro evs he hm
+  rw [he, List.drop_left] at h
+  exact h hm
+
+/-- After the execute prologue the task has no dependencies. -/
+theorem C08_reset_clears (s₁ : Sess) (h : s₁.store.WF) (node t : Nat) :
+    (execStart s₁ node t).store.depsFrom node = [] := by
+  show (s₁.store.resetTask node).depsFrom node = []
+  rw [Store.depsFrom_resetTask h, if_pos rfl]
+
+/-- The same for the bottom-up prologue. -/
+theorem C08_reset_clears_bu (s : Sess) (h : s.store.WF) (node : Nat) :
+    ({ s with store := s.store.resetTask node, cur := some node } : Sess).store.depsFrom node
+      = [] := by
+  show (s.store.resetTask node).depsFrom node = []
+  rw [Store.depsFrom_resetTask h, if_pos rfl]
+
+/-- The law for the body interpreter (restated from `C08.tdRun_law`): the run of `p` in frame
+`node` merges the performed operations into `depsFrom node`. -/
+theorem C08_tdRun_law (f : Nat) (s s' : Sess) (p : Prog) (o : Int) (node tn : Nat)
+    (h : SessWF s) (hc : s.cur = some node) (htn : s.store.taskOf node = some tn)
+    (hnr : Dep.reserved ∉ s.store.depsFrom node)
+    (hr : tdRun sem body f s p = (s', .ok o)) :
+    s'.store.depsFrom node = mergeAll (s.store.depsFrom node) (tdOps sem body f s p) :=
+  tdRun_law f s p s' o h hc htn hnr hr (tdRun_noExec_self f h hc htn hr)
+
+/-- **Stack discipline** (`hframe`), top-down: while the body of task `tn` runs in frame `node`
+and returns, no execution of `tn` — hence no reset of `node` — starts; nor of any task that
+transitively depends on `tn`. -/
+theorem C08_hframe_td (f : Nat) (s s' : Sess) (p : Prog) (o : Int) (node : Nat)
+    (h : SessWF s) (hc : s.cur = some node) (hr : tdRun sem body f s p = (s', .ok o)) :
+    ∀ z tz, s.store.taskOf z = some tz → (z = node ∨ s.store.g.Reach z node) → KNoExec tz s s' :=
+  fun z tz hz hp => (k_tdStack f).run s p s' o node h hc hr z tz hz hp
+
+/-- The same in the bottom-up context. -/
+theorem C08_hframe_bu (f : Nat) (s s' : Sess) (p : Prog) (o : Int) (node : Nat)
+    (h : SessWF s) (hc : s.cur = some node) (hr : buRun sem body f s p = (s', .ok o)) :
+    ∀ z tz, s.store.taskOf z = some tz → (z = node ∨ s.store.g.Reach z node) → KNoExec tz s s' :=
+  fun z tz hz hp => (k_buStack f).run s p s' o node h hc hr z tz hz hp
+
+/-- **C08.** If `tdMake … t` took the execute branch (the task was not yet consistent in this
+session, the check said "inconsistent", the body returned `o`), then the dependency list of the
+task in the final store is the merge, starting from the empty list, of the operations the body
+performed, in order. -/
+theorem C08_recorded_eq_performed (f : Nat) (s s₁ s₂ : Sess) (t : Nat) (st : Store) (node : Nat)
+    (o : Int) (h : SessWF s) (hn : s.store.getOrCreateTaskNode t = (st, node))
+    (hnc : node ∉ s.consistent)
+    (hc : tdCheck sem body f { s with store := st } node = (s₁, .ok none))
+    (hb : tdRun sem body f (execStart s₁ node t) (body t) = (s₂, .ok o)) :
+    tdMake sem body (f + 1) s t = (execFinish s₂ s₁.cur node t o, .ok o) ∧
+    (execFinish s₂ s₁.cur node t o).store.depsFrom node =
+      mergeAll [] (tdOps sem body f (execStart s₁ node t) (body t)) := by
+  constructor
+  · rw [C09_inconsistent_triggers_execution sem body f s s₁ t st node hn hnc hc, hb]
+  · have hst : st = (s.store.getOrCreateTaskNode t).1 := by rw [hn]
+    have hnode : node = (s.store.getOrCreateTaskNode t).2 := by rw [hn]
+    subst hst; subst hnode
+    have e1 := h.getTask t
+    have hd := Store.taskOf_getOrCreateTaskNode_self h.store t
+    have e2 := (tdCheck_ext sem body f e1.wf _).out hc
+    have hd2 := e2.le.task _ _ hd
+    have e3 := (e2.wf.startExec hd2).emit (.executeStart t)
+    have hwf : SessWF (execStart s₁ (s.store.getOrCreateTaskNode t).2 t) := e3.wf
+    have hclr := C08_reset_clears s₁ e2.wf.store (s.store.getOrCreateTaskNode t).2 t
+    have law := C08_tdRun_law sem body f _ s₂ _ o _ t hwf rfl (e3.le.task _ _ hd2)
+      (by rw [hclr]; simp) hb
+    rw [hclr] at law
+    rw [← law]
+    simp [execFinish]
+
+/-- The law for the bottom-up body interpreter. -/
+theorem C08_buRun_law (f : Nat) (s s' : Sess) (p : Prog) (o : Int) (node tn : Nat)
+    (h : SessWF s) (hc : s.cur = some node) (htn : s.store.taskOf node = some tn)
+    (hnr : Dep.reserved ∉ s.store.depsFrom node)
+    (hr : buRun sem body f s p = (s', .ok o)) :
+    s'.store.depsFrom node = mergeAll (s.store.depsFrom node) (buOps sem body f s p) :=
+  buRun_law f s p s' o h hc htn hnr hr (buRun_noExec_self f h hc htn hr)
+
+/-- **C08, bottom-up.** If `buExec` (called by `buMake` for a new task and by
+`execute_and_schedule` for a scheduled one) returns, the dependency list of the executed task is
+the merge, starting from the empty list, of the operations its body performed, in order. -/
+theorem C08_recorded_eq_performed_bu (f : Nat) (s s₂ : Sess) (t node : Nat) (o : Int)
+    (h : SessWF s) (ht : s.store.taskOf node = some t)
+    (hb : buRun sem body f (buExecSession s node t) (body t) = (s₂, .ok o)) :
+    (buExec sem body (f + 1) s t node).2 = .ok o ∧
+    (buExec sem body (f + 1) s t node).1.store.depsFrom node =
+      mergeAll [] (buOps sem body f (buExecSession s node t) (body t)) := by
+  have e3 := (h.startExec ht).emit (.executeStart t)
+  have hwf : SessWF (buExecSession s node t) := e3.wf
+  have hclr : (buExecSession s node t).store.depsFrom node = [] := C08_reset_clears_bu s h.store node
+  have law := C08_buRun_law sem body f _ s₂ _ o _ t hwf rfl (e3.le.task _ _ ht)
+    (by rw [hclr]; simp) hb
+  rw [hclr] at law
+  have hb' : buRun sem body f (({ ({ s with store := s.store.resetTask node } : Sess) with
+      cur := some node } : Sess).emit (.executeStart t)) (body t) = (s₂, .ok o) := hb
+  constructor
+  · simp only [buExec, hb']
+  · simp only [buExec, hb']
+    rw [← law]
+    simp
+
+/-- **C08 on the tracker stream.** The dependency list of the task after its execution is the
+merge of the dependencies *declared* by the events of this execution: the `requireEnd`, `readEnd`,
+`writeEnd` events between `executeStart t` and `executeEnd t o` that are not inside a nested
+execution, each with the checker and the stamp it reports. -/
+theorem C08_recorded_eq_declared (f : Nat) (s s₁ s₂ : Sess) (t : Nat) (st : Store) (node : Nat)
+    (o : Int) (h : SessWF s) (hn : s.store.getOrCreateTaskNode t = (st, node))
+    (hnc : node ∉ s.consistent)
+    (hc : tdCheck sem body f { s with store := st } node = (s₁, .ok none))
+    (hb : tdRun sem body f (execStart s₁ node t) (body t) = (s₂, .ok o)) :
+    ∃ bodyEvs,
+      (tdMake sem body (f + 1) s t).1.trace =
+        s₁.trace ++ [.executeStart t] ++ bodyEvs ++ [.executeEnd t o] ∧
+      (tdMake sem body (f + 1) s t).1.store.depsFrom node = mergeAll [] (declared bodyEvs) := by
+  obtain ⟨h1, h2⟩ := C08_recorded_eq_performed sem body f s s₁ s₂ t st node o h hn hnc hc hb
+  obtain ⟨evs, ht, hd⟩ := tdRun_declared f (cur := node) rfl hb
+  refine ⟨evs, ?_, ?_⟩
+  · rw [h1]
+    simp only [execFinish, SessL.markConsistent_trace, ht]
+    rfl
+  · rw [h1, hd]; exact h2
+
+/-- The same for `buExec`. -/
+theorem C08_recorded_eq_declared_bu (f : Nat) (s s₂ : Sess) (t node : Nat) (o : Int)
+    (h : SessWF s) (ht : s.store.taskOf node = some t)
+    (hb : buRun sem body f (buExecSession s node t) (body t) = (s₂, .ok o)) :
+    ∃ bodyEvs,
+      (buExec sem body (f + 1) s t node).1.trace =
+        s.trace ++ [.executeStart t] ++ bodyEvs ++ [.executeEnd t o] ∧
+      (buExec sem body (f + 1) s t node).1.store.depsFrom node = mergeAll [] (declared bodyEvs) := by
+  obtain ⟨_, h2⟩ := C08_recorded_eq_performed_bu sem body f s s₂ t node o h ht hb
+  obtain ⟨evs, htr, hd⟩ := buRun_declared f (cur := node) rfl hb
+  refine ⟨evs, ?_, by rw [hd]; exact h2⟩
+  have hb' : buRun sem body f (({ ({ s with store := s.store.resetTask node } : Sess) with
+      cur := some node } : Sess).emit (.executeStart t)) (body t) = (s₂, .ok o) := hb
+  simp only [buExec, hb']
+  show s₂.trace ++ [.executeEnd t o] = _
+  rw [htr]
+  rfl
+
+/-- What the law says about a store: nothing but declared dependencies, no target that was not
+accessed. -/
+theorem C08_no_leftover_store {st : Store} (hw : st.WF) {node : Nat} {ops : List Dep}
+    (hd : st.depsFrom node = mergeAll [] ops) (hres : Dep.reserved ∉ ops) :
+    (∀ d ∈ st.depsFrom node, d ∈ ops) ∧
+    (∀ k, hasKey ops k = false → hasKey (st.depsFrom node) k = false) ∧
+    (∀ r dst, st.resOf dst = some r → hasKey ops (some (.res r)) = false →
+      ¬ st.g.HasEdge node dst) ∧
+    (∀ t' dst, st.taskOf dst = some t' → hasKey ops (some (.task t')) = false →
+      ¬ st.g.HasEdge node dst) := by
+  have hk : ∀ k, hasKey ops k = false → hasKey (st.depsFrom node) k = false := by
+    intro k hk
+    rw [hd, hasKey_mergeAll, hk]; rfl
+  refine ⟨fun d hm => ?_, hk, fun r dst hr hno he => ?_, fun t' dst ht hno he => ?_⟩
+  · rw [hd] at hm
+    rcases mem_mergeAll hm with h1 | h1
+    · cases h1
+    · exact h1
+  · have := (hw.hasEdge_res_iff node hr).mp he
+    rw [hk _ hno] at this; cases this
+  · have hnr : Dep.reserved ∉ st.depsFrom node := by
+      rw [hd]; exact mergeAll_noReserved (by simp) hres
+    have := (hw.hasEdge_task_iff node ht hnr).mp he
+    rw [hk _ hno] at this; cases this
+
+/-- **C08, no leftovers.** After the execution, every recorded dependency was declared in this
+execution, and a task or resource this execution did not access is not the target of any edge
+from the task — whatever earlier executions had recorded. -/
+theorem C08_no_leftover (f : Nat) (s s₁ s₂ : Sess) (t : Nat) (st : Store) (node : Nat)
+    (o : Int) (h : SessWF s) (hn : s.store.getOrCreateTaskNode t = (st, node))
+    (hnc : node ∉ s.consistent)
+    (hc : tdCheck sem body f { s with store := st } node = (s₁, .ok none))
+    (hb : tdRun sem body f (execStart s₁ node t) (body t) = (s₂, .ok o)) :
+    let fin := (tdMake sem body (f + 1) s t).1.store
+    let ops := tdOps sem body f (execStart s₁ node t) (body t)
+    (∀ d ∈ fin.depsFrom node, d ∈ ops) ∧
+    (∀ k, hasKey ops k = false → hasKey (fin.depsFrom node) k = false) ∧
+    (∀ r dst, fin.resOf dst = some r → hasKey ops (some (.res r)) = false →
+      ¬ fin.g.HasEdge node dst) ∧
+    (∀ t' dst, fin.taskOf dst = some t' → hasKey ops (some (.task t')) = false →
+      ¬ fin.g.HasEdge node dst) := by
+  intro fin ops
+  have hw : fin.WF := (tdMake_ext sem body (f + 1) h t).wf.store
+  obtain ⟨h1, h2⟩ := C08_recorded_eq_performed sem body f s s₁ s₂ t st node o h hn hnc hc hb
+  have hfin : fin = (execFinish s₂ s₁.cur node t o).store := by
+    show (tdMake sem body (f + 1) s t).1.store = _; rw [h1]
+  exact C08_no_leftover_store hw (by rw [hfin]; exact h2) (reserved_not_mem_tdOps f _ _)
+
+/-- Under `OneChecker` the recorded list is exactly the first-occurrence projection of the
+performed operations, each with its checker and its stamp. -/
+theorem C08_one_checker {st : Store} {node : Nat} {ops : List Dep}
+    (hd : st.depsFrom node = mergeAll [] ops) (h1 : OneChecker ops) :
+    st.depsFrom node = firstOcc [] ops := by
+  rw [hd]; exact mergeAll_eq_firstOcc [] ops (by simpa [OneChecker] using h1)
+
+/-- If no target is accessed twice, the recorded list is literally the list of performed
+operations. -/
+theorem C08_distinct_targets {st : Store} {node : Nat} {ops : List Dep}
+    (hd : st.depsFrom node = mergeAll [] ops)
+    (hdist : (ops.map Dep.key).Nodup) : st.depsFrom node = ops := by
+  rw [hd]
+  clear hd
+  suffices ∀ l, (∀ e ∈ l, ∀ d ∈ ops, e.key ≠ d.key) → mergeAll l ops = l ++ ops by
+    simpa using this [] (by simp)
+  induction ops with
+  | nil => intro l _; simp
+  | cons d ops ih =>
+    intro l hl
+    simp only [List.map_cons, List.nodup_cons] at hdist
+    have hno : hasKey l d.key = false := by
+      cases hh : hasKey l d.key
+      · rfl
+      · obtain ⟨e, he, hk⟩ := (hasKey_iff l d.key).mp hh
+        exact absurd hk (hl e he d (by simp))
+    rw [mergeAll_cons, merge_of_not_hasKey hno, ih hdist.2]
+    · simp
+    · intro e he d' hd'
+      rw [List.mem_append, List.mem_singleton] at he
+      rcases he with he | rfl
+      · exact hl e he d' (by simp [hd'])
+      · intro hk
+        exact hdist.1 (by rw [hk]; exact List.mem_map_of_mem hd')
+
+/-! ### validation looks at the recorded list only -/
+
+/-- **C08, consequence for validation.** The top-down check of a task consults exactly its
+recorded dependencies (`C09_tdCheck_eq`), i.e. the operations of its latest execution.  So if
+those are resource dependencies that are all consistent, the task is reused without execution —
+whatever happened to any resource the latest execution did not access (`s` and `s₀` may differ
+arbitrarily there): a dropped dependency never triggers. -/
+theorem C08_dropped_never_triggers (f : Nat) (s s₀ : Sess) (t : Nat) (st : Store) (node : Nat)
+    (o : Int) (ops : List Dep) (hn : s.store.getOrCreateTaskNode t = (st, node))
+    (hnc : node ∉ s.consistent) (ho : st.taskOutput node = some o)
+    (hd : st.depsFrom node = mergeAll [] ops) (hf : (st.depsFrom node).length < f)
+    (hall : ∀ d ∈ ops, resConsistent sem s₀ d)
+    (hsame : ∀ r, hasKey ops (some (.res r)) = true → s.content r = s₀.content r) :
+    (tdMake sem body (f + 2) s t).2 = .ok o ∧
+    ∀ t', Ev.executeStart t' ∉ (tdMake sem body (f + 2) s t).1.trace.drop s.trace.length := by
+  have hall' : ∀ d ∈ st.depsFrom node, resConsistent sem s d := by
+    intro d hm
+    rw [hd] at hm
+    rcases mem_mergeAll hm with h1 | h1
+    · cases h1
+    · have hc0 := hall d h1
+      have hk : hasKey ops d.key = true := (hasKey_iff ops d.key).mpr ⟨d, h1, rfl⟩
+      cases d with
+      | reserved => exact hc0
+      | require _ _ _ => exact hc0
+      | read r c stamp => simp only [resConsistent] at hc0 ⊢; rw [hsame r hk]; exact hc0
+      | write r c stamp => simp only [resConsistent] at hc0 ⊢; rw [hsame r hk]; exact hc0
+  obtain ⟨h1, h2⟩ := C09_consistent_resources_reuse sem body f s t st node o hn hnc ho hf hall'
+  rw [h1]
+  refine ⟨rfl, fun t' => ?_⟩
+  simp only [SessL.markConsistent_trace, List.drop_left]
+  exact h2 t'
+
+/-! ### non-vacuity -/
+
+open DecEqAux
+
+/-- Task 0 reads resource 9 and then, depending on what it saw, resource 7 or resource 8.
+Task 1 (known finding K2): reads 9 with two checkers, requires 0 with two checkers. -/
+def c08Tbl : List (Nat × Script) :=
+  [(0, .read 9 0 (.ite (.eq (.var 0) (.const 1)) (.read 7 0 (.ret (.var 1)))
+        (.read 8 0 (.ret (.var 1))))),
+   (1, .read 9 0 (.read 9 1 (.req 0 0 (.req 0 3 (.ret (.const 0))))))]
+
+/-- First session with `9 ↦ 1`: task 0 reads 9 and 7.  Then 9 is changed to 2. -/
+def c08Pie : PieSt :=
+  ((sessionRequire stdSem (bodyOf c08Tbl) 100
+      (PieSt.newSession { fs := [(9, 1), (7, 10), (8, 20)] }) 0).1.toPie).setContent 9 (some 2)
+
+example : c08Pie.store.depsFrom 0 =
+    [.read 9 0 (.optInt (some 1)), .read 7 0 (.optInt (some 10))] := by decide +kernel
+
+/-- The second execution of task 0, in a new session. -/
+def c08S : Sess := c08Pie.newSession
+def c08St : Store := (c08S.store.getOrCreateTaskNode 0).1
+def c08S1 : Sess := (tdCheck stdSem (bodyOf c08Tbl) 50 { c08S with store := c08St } 0).1
+def c08S2 : Sess := (tdRun stdSem (bodyOf c08Tbl) 50 (execStart c08S1 0 0) (bodyOf c08Tbl 0)).1
+
+theorem c08_wf : SessWF c08S := by
+  have h0 : SessWF (PieSt.newSession { fs := [(9, 1), (7, 10), (8, 20)] }) :=
+    C19_newSession_wf _ Store.WF.empty
+  have h1 := (sessionRequire_ext stdSem (bodyOf c08Tbl) 100 h0 0).wf
+  exact C19_newSession_wf _ (by
+    show (PieSt.setContent _ 9 (some 2)).store.WF
+    rw [C19_setContent_store]; exact h1.store)
+
+/-- The hypotheses of the theorem hold on this run, ... -/
+theorem c08_instance :
+    (execFinish c08S2 c08S1.cur 0 0 20).store.depsFrom 0 =
+      mergeAll [] (tdOps stdSem (bodyOf c08Tbl) 50 (execStart c08S1 0 0) (bodyOf c08Tbl 0)) :=
+  (C08_recorded_eq_performed stdSem (bodyOf c08Tbl) 50 c08S c08S1 c08S2 0 c08St 0 20 c08_wf
+    (Prod.ext rfl (by decide +kernel)) (by decide +kernel)
+    (Prod.ext rfl (by decide +kernel)) (Prod.ext rfl (by decide +kernel))).2
+
+/-- ... the performed operations are the two reads of THIS execution, ... -/
+example : tdOps stdSem (bodyOf c08Tbl) 50 (execStart c08S1 0 0) (bodyOf c08Tbl 0) =
+    [.read 9 0 (.optInt (some 2)), .read 8 0 (.optInt (some 20))] := by decide +kernel
+
+/-- ... and they are what is recorded: the read of resource 7 is gone. -/
+example : (tdMake stdSem (bodyOf c08Tbl) 51 c08S 0).1.store.depsFrom 0 =
+    [.read 9 0 (.optInt (some 2)), .read 8 0 (.optInt (some 20))] := by decide +kernel
+
+/-- The same list read off the tracker stream of the second execution. -/
+example : (tdMake stdSem (bodyOf c08Tbl) 51 c08S 0).1.trace =
+      [.checkResStart 9 0 (.optInt (some 1)), .checkResEnd 9 0 (.optInt (some 1)) (.ok false),
+       .executeStart 0, .readStart 9 0, .readEnd 9 0 (.optInt (some 2)),
+       .readStart 8 0, .readEnd 8 0 (.optInt (some 20)), .executeEnd 0 20] ∧
+    declared [.readStart 9 0, .readEnd 9 0 (.optInt (some 2)),
+       .readStart 8 0, .readEnd 8 0 (.optInt (some 20))] =
+      [.read 9 0 (.optInt (some 2)), .read 8 0 (.optInt (some 20))] := by decide +kernel
+
+/-- A dropped dependency never triggers: after the second execution, resource 7 (read by the
+first execution only) is changed; task 0 is reused without execution. -/
+def c08Pie2 : PieSt := (tdMake stdSem (bodyOf c08Tbl) 51 c08S 0).1.toPie
+def c08S3 : Sess := (c08Pie2.setContent 7 (some 99)).newSession
+
+theorem c08_instance_dropped :
+    (tdMake stdSem (bodyOf c08Tbl) 12 c08S3 0).2 = .ok 20 ∧
+    ∀ t', Ev.executeStart t' ∉
+      (tdMake stdSem (bodyOf c08Tbl) 12 c08S3 0).1.trace.drop c08S3.trace.length :=
+  C08_dropped_never_triggers stdSem (bodyOf c08Tbl) 10 c08S3 c08Pie2.newSession 0
+    (c08S3.store.getOrCreateTaskNode 0).1 0 20
+    [.read 9 0 (.optInt (some 2)), .read 8 0 (.optInt (some 20))]
+    (Prod.ext rfl (by decide +kernel)) (by decide +kernel) (by decide +kernel)
+    (by decide +kernel) (by decide +kernel)
+    (by
+      intro d hd
+      simp only [List.mem_cons, List.not_mem_nil, or_false] at hd
+      rcases hd with rfl | rfl
+      · show stdSem.rcheck 0 (c08Pie2.newSession.content 9) (.optInt (some 2)) = .ok true
+        decide +kernel
+      · show stdSem.rcheck 0 (c08Pie2.newSession.content 8) (.optInt (some 20)) = .ok true
+        decide +kernel)
+    (by
+      intro r hr
+      obtain ⟨e, he, hk⟩ := (hasKey_iff _ _).mp hr
+      simp only [List.mem_cons, List.not_mem_nil, or_false] at he
+      rcases he with rfl | rfl
+      · cases hk; decide +kernel
+      · cases hk; decide +kernel)
+
+/-- The same re-execution in the bottom-up context (`buExec`). -/
+def c08B2 : Sess :=
+  (buRun stdSem (bodyOf c08Tbl) 50 (buExecSession c08S 0 0) (bodyOf c08Tbl 0)).1
+
+theorem c08_instance_bu :
+    (buExec stdSem (bodyOf c08Tbl) 51 c08S 0 0).1.store.depsFrom 0 =
+      mergeAll [] (buOps stdSem (bodyOf c08Tbl) 50 (buExecSession c08S 0 0) (bodyOf c08Tbl 0)) :=
+  (C08_recorded_eq_performed_bu stdSem (bodyOf c08Tbl) 50 c08S c08B2 0 0 20 c08_wf
+    (by decide +kernel) (Prod.ext rfl (by decide +kernel))).2
+
+example : (buExec stdSem (bodyOf c08Tbl) 51 c08S 0 0).1.store.depsFrom 0 =
+      [.read 9 0 (.optInt (some 2)), .read 8 0 (.optInt (some 20))] ∧
+    buOps stdSem (bodyOf c08Tbl) 50 (buExecSession c08S 0 0) (bodyOf c08Tbl 0) =
+      [.read 9 0 (.optInt (some 2)), .read 8 0 (.optInt (some 20))] := by decide +kernel
+
+/-- K2: one dependency per target — the first `read`, the last `require`. -/
+def c08K2 : Sess :=
+  (sessionRequire stdSem (bodyOf c08Tbl) 100
+    (PieSt.newSession { fs := [(9, 1), (7, 10), (8, 20)] }) 1).1
+
+example : c08K2.store.depsFrom 0 =
+      [.read 9 0 (.optInt (some 1)), .require 0 3 (.bool false)] ∧
+    mergeAll [] [.read 9 0 (.optInt (some 1)), .read 9 1 (.optInt (some 1)),
+        .require 0 0 (.int 10), .require 0 3 (.bool false)] =
+      [.read 9 0 (.optInt (some 1)), .require 0 3 (.bool false)] := by decide +kernel
+
 end PieModel
